@@ -49,7 +49,7 @@ def gen_case(rng, cid):
         extras = [[f"d{dimctr[0] + 1 + k}", rng.randint(1, 2)] for k in range(rng.choice([0, 1, 1, 2]))]
         ctor = gen.rand_ctor(rng, axn)
         grid = {"axes": axes, "extra": extras, "ctor": ctor}
-        nd = rng.randint(1, min(2, naxes))
+        nd = rng.randint(1, min(3, naxes))           # up to three dummy axes: a later argument may bring two new ones
         dummies = DUMMIES[:nd]
         reals = rng.sample(axn, nd)
         bind = dict(zip(dummies, reals))
